@@ -62,7 +62,7 @@ struct FanPlan
 
 std::string describeFan(const FanPlan &p)
 {
-  static const char *n[] = {"announce", "observe", "unobserve", "setData", "close", "data", "getData"};
+  static const char *n[] = {"announce", "observe", "unobserve", "setData", "close", "data", "getData", "armGlobal"};
   std::string s = "fanout:";
   for (auto &o : p.ops)
     s += std::string(" ") + n[o.op] + "(" + std::to_string(o.a) + "," + std::to_string(o.b) + "," + std::to_string(o.c) + ")";
@@ -114,6 +114,11 @@ void runFanout(const FanPlan &plan, pbt::Case &c)
     int state{0}; // 0 unborn, 1 open, 2 closed
     SessionId sid{0};
     MData data;
+    // re-entrant action performed INSIDE the global close callback of this session's close:
+    // 0 none, 1 unobserve an observer of this session, 2 unobserve an observer of another session,
+    // 3 observe(this session, new observer), 4 replace the user data, 5 clear the user data
+    int globalAction{0};
+    int globalParam{0};
   };
   MSess ms[NIDS];
   std::deque<MObs> mobs; // deque: stable references while callbacks append
@@ -125,6 +130,13 @@ void runFanout(const FanPlan &plan, pbt::Case &c)
   };
   std::deque<Payload> payloads;
   std::string reentrantFail;
+  std::string reentrantSig;
+  // filled by the global callback when it returns: what the model says is registered for the
+  // closing session at that moment (the documented order reads the observer list AFTER the
+  // global callback), and how many model observers existed then
+  std::vector<std::uint64_t> obsAfterGlobal;
+  std::size_t mobsAfterGlobal = 0;
+  bool usedGlobalReentry = false;
 
   t->onAccept([&](SessionId sid, const TransportAddress &) { actual.push_back({'a', sid}); });
   t->onConnect([&](SessionId sid, const TransportAddress &) { actual.push_back({'c', sid}); });
@@ -143,6 +155,7 @@ void runFanout(const FanPlan &plan, pbt::Case &c)
       if (ms[i].state != 0 && ms[i].sid == sid) return i;
     return -1;
   };
+  std::function<void(void *)> cleanupFn = [&](void *p) { actual.push_back({'C', static_cast<Payload *>(p)->tag}); };
   t->onClose(
     [&](SessionId sid, const TransportErrorInfo &)
     {
@@ -151,8 +164,55 @@ void runFanout(const FanPlan &plan, pbt::Case &c)
       int idx = idxOfSid(sid);
       if (idx >= 0 && tp->getSessionData(sid) != expectedDataPtr(idx) && reentrantFail.empty())
         reentrantFail = "getSessionData inside the global close callback did not return the registered pointer";
+      if (idx >= 0 && ms[idx].globalAction != 0)
+      {
+        usedGlobalReentry = true;
+        const int act = ms[idx].globalAction;
+        if (act == 1 || act == 2)
+        {
+          // candidates: observers of this session (1) / of other sessions (2), any model state
+          std::vector<MObs *> cand;
+          for (auto &o : mobs)
+            if ((act == 1) == (o.idx == idx)) cand.push_back(&o);
+          if (!cand.empty())
+          {
+            MObs *o = cand[static_cast<std::size_t>(ms[idx].globalParam) % cand.size()];
+            bool ret = tp->unobserve(o->handle);
+            if (ret != o->registered && reentrantFail.empty())
+            {
+              reentrantSig = "C02/fanout/unobserve-in-global-callback";
+              reentrantFail = std::string("unobserve() called inside the global close callback returned ") + (ret ? "true" : "false") +
+                              " for observer t" + std::to_string(o->tag) + " that is " + (o->registered ? "still registered" : "not registered") +
+                              (act == 1 ? " for the closing session" : " for another session");
+            }
+            o->registered = false;
+          }
+        }
+        else if (act == 3)
+        {
+          std::uint64_t nt = nextTag++;
+          ObserverId h = tp->observe(sid, [&, nt](SessionId, const TransportErrorInfo &) { actual.push_back({'O', nt}); });
+          mobs.push_back(MObs{nt, h, idx, true, 0});
+        }
+        else if (act == 4)
+        {
+          std::uint64_t nt = nextTag++;
+          payloads.push_back(Payload{nt});
+          tp->setSessionData(sid, &payloads.back(), cleanupFn);
+          ms[idx].data = MData{true, nt, true, true};
+        }
+        else if (act == 5)
+        {
+          tp->setSessionData(sid, nullptr, nullptr);
+          ms[idx].data = MData{};
+        }
+      }
+      obsAfterGlobal.clear();
+      if (idx >= 0)
+        for (auto &o : mobs)
+          if (o.idx == idx && o.registered) obsAfterGlobal.push_back(o.tag);
+      mobsAfterGlobal = mobs.size();
     });
-  auto cleanupFn = [&](void *p) { actual.push_back({'C', static_cast<Payload *>(p)->tag}); };
 
   auto makeObserver = [&](std::uint64_t tag) -> CloseCallback
   {
@@ -198,15 +258,17 @@ void runFanout(const FanPlan &plan, pbt::Case &c)
     std::vector<Rec> expected;
     expected.push_back({'G', ms[idx].sid});
     unsigned nObs = 0;
-    for (auto &o : mobs)
-      if (o.idx == idx && o.registered)
-      {
-        expected.push_back({'O', o.tag});
-        ++nObs;
-      }
     std::size_t before = actual.size();
-    std::size_t mobsBefore = mobs.size();
+    obsAfterGlobal.clear();
+    mobsAfterGlobal = mobs.size();
     fe->cbs().onClose(ms[idx].sid, TransportErrorInfo{TransportError::PeerClosed, "scripted"});
+    // documented order: global first, THEN the list of still-registered observers is read
+    for (auto tag : obsAfterGlobal)
+    {
+      expected.push_back({'O', tag});
+      ++nObs;
+    }
+    const std::size_t mobsBefore = mobsAfterGlobal;
     if (ms[idx].data.present && ms[idx].data.nonNull && ms[idx].data.hasCleanup)
       expected.push_back({'C', ms[idx].data.tag});
     std::vector<Rec> got(actual.begin() + static_cast<std::ptrdiff_t>(before), actual.end());
@@ -342,6 +404,13 @@ void runFanout(const FanPlan &plan, pbt::Case &c)
         }
       }
       break;
+    case 7: // arm a re-entrant action for the global callback of this id's close
+      if (ms[idx].state != 2)
+      {
+        ms[idx].globalAction = 1 + op.b % 5;
+        ms[idx].globalParam = op.b / 5;
+      }
+      break;
     case 6: // getSessionData
       if (ms[idx].state != 0)
       {
@@ -356,7 +425,7 @@ void runFanout(const FanPlan &plan, pbt::Case &c)
     }
     if (!reentrantFail.empty())
     {
-      c.fail("C02/fanout/data-gone-before-cleanup-step", reentrantFail);
+      c.fail(reentrantSig.empty() ? "C02/fanout/data-gone-before-cleanup-step" : reentrantSig, reentrantFail);
       return;
     }
   }
@@ -365,7 +434,7 @@ void runFanout(const FanPlan &plan, pbt::Case &c)
     if (ms[i].state == 1 && !doClose(i)) return;
   if (!reentrantFail.empty())
   {
-    c.fail("C02/fanout/data-gone-before-cleanup-step", reentrantFail);
+    c.fail(reentrantSig.empty() ? "C02/fanout/data-gone-before-cleanup-step" : reentrantSig, reentrantFail);
     return;
   }
   std::size_t before = actual.size();
@@ -377,6 +446,7 @@ void runFanout(const FanPlan &plan, pbt::Case &c)
     return;
   }
   c.label("fanout closes=" + std::to_string(std::min(closes, 6u)));
+  if (usedGlobalReentry) c.label("re-entrant action inside the global close callback");
   if (anyRich && closes >= 2)
   {
     std::uint64_t d = 0;
@@ -392,7 +462,7 @@ FanPlan genFanPlan(pbt::Src &src)
   for (auto &r : rows)
   {
     // weights: announce 4, observe 6, unobserve 3, setData 4, close 4, data 1, getData 1
-    static const int w[] = {0, 0, 0, 0, 1, 1, 1, 1, 1, 1, 2, 2, 2, 3, 3, 3, 3, 4, 4, 4, 4, 5, 6};
+    static const int w[] = {0, 0, 0, 0, 1, 1, 1, 1, 1, 1, 2, 2, 2, 3, 3, 3, 3, 4, 4, 4, 4, 5, 6, 7, 7, 7};
     int op = w[static_cast<std::size_t>(r[0]) % (sizeof(w) / sizeof(w[0]))];
     p.ops.push_back(FanOp{op, static_cast<int>(r[1]), static_cast<int>(r[2]), 0});
   }
@@ -1372,6 +1442,20 @@ PBT_REGRESSION(fanout_basic)
   FanPlan p;
   p.ops = {{0, 0, 0, 0}, {1, 0, 0, 0}, {1, 0, 4, 0}, {1, 0, 0, 0}, {3, 0, 0, 0}, {3, 0, 1, 0}, {2, 1, 0, 0}, {5, 0, 0, 0}, {4, 0, 0, 0},
            {0, 1, 1, 0}, {1, 1, 7, 0}, {3, 1, 0, 0}, {4, 1, 0, 0}};
+  runFanout(p, c);
+}
+
+// re-entrant use of observe/unobserve/setSessionData INSIDE the global close callback of the same
+// close: the observer list is read after the global callback, so an observer unobserved there must
+// not fire (and unobserve returns true), one added there fires, replaced data is what gets cleaned
+PBT_REGRESSION(fanout_reentrant_global)
+{
+  FanPlan p;
+  p.ops = {{0, 0, 0, 0}, {1, 0, 0, 0}, {1, 0, 0, 0}, {1, 0, 0, 0}, {3, 0, 0, 0}, {7, 0, 0, 0}, {4, 0, 0, 0},  // unobserve 1st of 3 in global
+           {0, 1, 0, 0}, {1, 1, 0, 0}, {7, 1, 2, 0}, {4, 1, 0, 0},                                            // observe a new one in global
+           {0, 2, 0, 0}, {1, 2, 0, 0}, {3, 2, 0, 0}, {7, 2, 3, 0}, {4, 2, 0, 0},                              // replace user data in global
+           {0, 3, 0, 0}, {1, 3, 0, 0}, {0, 4, 0, 0}, {1, 4, 0, 0}, {3, 3, 0, 0}, {7, 3, 1, 0}, {4, 3, 0, 0}, {4, 4, 0, 0}, // unobserve another session's
+           {0, 5, 0, 0}, {1, 5, 0, 0}, {3, 5, 0, 0}, {7, 5, 4, 0}, {4, 5, 0, 0}};                             // clear user data in global
   runFanout(p, c);
 }
 
